@@ -57,6 +57,7 @@ TRUSTED_BASE = [
 
 B18 = os.path.join(C.BUILD, 'c18')
 KNOWN_SIG = 'repartition-trailing-empty-oob'
+EMPTY_SIG = 'partition-empty-range-wrong-type'
 LONG_SIG = 'virtual-declared-length-longer-accepted'
 
 
@@ -196,6 +197,8 @@ def gen_virt(rng, i):
                 parent = parent[p]
             if parent[0] == 'par':
                 continue
+        if node[0] == 'par' and node[1] in ('char', 'byte'):
+            continue        # "__array__ = char only allowed for NumpyArray": the library's own validity rule
         cands.append((path, node))
     first = rng.choice(cands) if rng.random() < 0.65 else cands[0]     # the root more often
     wraps = [first]
@@ -468,7 +471,7 @@ def virtm_line(c, steps_out, lenient, tag):
                                                      ' '.join(w['script']), ' '.join(model_outcomes(w, lenient))))
     sts = []
     single_root = len(m['wraps']) == 1 and m['wraps'][0]['root']
-    for st_in, st_out in zip(m['steps'], steps_out):
+    for st_in, st_out in zip([['build']] + m['steps'], steps_out):
         toks = fld(st_out, 't')[1:]
         head = st_in[0]
         if head in ('evict', 'break'):
@@ -482,6 +485,17 @@ def virtm_line(c, steps_out, lenient, tag):
         sts.append('(%s%s)' % (kind, ''.join(' ' + t for t in toks)))
     return '(%s%s virtm (cached %d) (broken %d) (wraps %s) (steps %s))' % (
         c.id, tag, 0 if m['cache'] == 'none' else 1, 1 if m['cache'] == 'broken' else 0, ' '.join(wr), ' '.join(sts))
+
+
+def canon(d):
+    """the dumper prints the parameters of a VirtualArray node and again those of its payload: collapse"""
+    if not isinstance(d, list):
+        return d
+    d = [canon(x) for x in d]
+    if len(d) == 4 and d[0] == 'par' and isinstance(d[3], list) and len(d[3]) == 4 and d[3][0] == 'par' \
+            and d[3][1] == d[1] and d[3][2] == d[2]:
+        return d[3]
+    return d
 
 
 def is_layout(d):
@@ -520,8 +534,8 @@ class ValueJobs:
         for j, e, v, cb in self.jobs:
             r = verd.get(j, 'bad missing')
             k = r.split(' ', 1)[0]
-            if k == 'agree':
-                cb(True)
+            if k == 'agree' or r.startswith('viol closure'):
+                cb(True)          # equal values; "closure" only says the dumped (materialised) tree is not canonical
             elif k == 'viol':
                 cb(False)
             else:
@@ -695,6 +709,8 @@ def run(cases, tier, rng):
                     if not pinned_oob:
                         add('modeldiff', 'the implementation crashes in repartition but the pinned model does not read out of bounds',
                             c, [minimal], no_input=True, obl='corr:pinned-model-predicts-crash')
+            if c.op == 'virt' and any(w['lenkind'] == 'toosmall' for w in c.meta['wraps']):
+                sig = LONG_SIG     # the accepted longer payload makes length() and the buffers disagree
             bump('crash')
             what = ('%s session: implementation crashed/hung in step %s (%s phase) [%s]' %
                     (c.op, k, {'V': 'virtual', 'P': 'partitioned', 'Q': 'partitioned(positions)'}.get(phase, phase),
@@ -712,6 +728,7 @@ def run(cases, tier, rng):
         # ------------------------------------------------------------ virtual sessions
         if c.op == 'virt':
             m = c.meta
+            steps_in = [['build']] + m['steps']
             has_small = any(w['lenkind'] == 'toosmall' for w in m['wraps'])
             # a declaration that contradicts the eager array: answers taken from the declaration legitimately differ
             lying = any(w['lenkind'] in ('toosmall', 'toolarge') or w['form'] == 'wrong' for w in m['wraps'])
@@ -719,35 +736,35 @@ def run(cases, tier, rng):
                 info['long_sessions'] += 1
             mr = mres.get(c.id, 'bad missing')
             ml = mres.get(c.id + '~lenient') if has_small else None
-            if not mr.startswith('ok'):
+            if not mr.startswith('ok') or (has_small and not (ml or '').startswith('ok')):
                 bump('bad')
                 add('bad', 'virtrun could not replay: %s' % mr[:200], c, [line], no_input=True, obl='corr:trace-is-a-model-run')
                 continue
             msteps = parse('(' + mr[3:] + ')')
-            lsteps = parse('(' + ml[3:] + ')') if (ml and ml.startswith('ok')) else None
+            lsteps = parse('(' + ml[3:] + ')') if has_small else None
+
+            def explains(ms, k, so):
+                """does this model run explain step k of the implementation? (trace, counts, error => error)"""
+                mstat, mcounts, magree = ms[k][1], [int(x) for x in fld(ms[k], 'n')[1:]], ms[k][3]
+                counts_impl = [int(x) for x in fld(so, 'n')[1:]]
+                v_ok = fld(so, 'v')[1] in ('ok', 'build', 'event', 'skip')
+                return magree == 'agree' and 'incoherent' not in ms[k] and mcounts == counts_impl and not (mstat == 'err' and v_ok)
+
             ngen = 0
             nok = 0
-            session_sig = None
             use_lenient = False
-            for k, (st_in, so) in enumerate(zip(m['steps'], steps_out)):
+            for k, (st_in, so) in enumerate(zip(steps_in, steps_out)):
                 v, e, nn, tt = fld(so, 'v'), fld(so, 'e'), fld(so, 'n'), fld(so, 't')
-                mo = msteps[k]
                 info['model_steps'] += 1
                 counts_impl = [int(x) for x in nn[1:]]
                 ngen = sum(counts_impl)
-
-                def model_view(ms):
-                    return ms[1], [int(x) for x in fld(ms, 'n')[1:]], ms[3]
-                mstat, mcounts, magree = model_view(mo)
-                if has_small and (magree != 'agree' or mcounts != counts_impl) and lsteps is not None:
-                    # the strict expectation (a longer payload is a mismatch) fails: does the lenient model explain it?
-                    lstat, lcounts, lagree = model_view(lsteps[k])
-                    if lagree == 'agree' and lcounts == counts_impl:
-                        use_lenient = True
-                        session_sig = LONG_SIG
-                if use_lenient:
-                    mstat, mcounts, magree = model_view(lsteps[k])
-                if magree != 'agree' or 'incoherent' in mo:
+                if has_small and not use_lenient and not explains(msteps, k, so) and explains(lsteps, k, so):
+                    # the expectation "a payload longer than declared is a mismatch" fails here, and the model in
+                    # which such a payload is accepted explains the implementation
+                    use_lenient = True
+                ms = lsteps if use_lenient else msteps
+                mstat, mcounts, magree = ms[k][1], [int(x) for x in fld(ms[k], 'n')[1:]], ms[k][3]
+                if magree != 'agree' or 'incoherent' in ms[k]:
                     bump('modeldiff')
                     add('modeldiff', 'correspondence corr:trace-is-a-model-run broken at step %d: %s (trace %s)' %
                         (k, unparse(magree), unparse(tt)), c, [line, '# driver: ' + r[:1500], '# model: ' + mr[:800]],
@@ -761,7 +778,9 @@ def run(cases, tier, rng):
                     break
                 if v[1] in ('event', 'skip'):
                     continue
-                # laziness (Theorem generator_called_lazily / declared_queries_are_free on the implementation)
+                if e[1] == 'err' and st_in[0] == 'build':
+                    break                                    # the eager layout itself was refused: nothing to compare
+                # laziness (generator_called_lazily / declared_queries_are_free, on the implementation)
                 if st_in[0] == 'len' and len(m['wraps']) == 1 and m['wraps'][0]['root'] and m['wraps'][0]['lenkind'] != 'none':
                     info['lazy_checked'] += 1
                     if len(tt) > 1:
@@ -769,29 +788,37 @@ def run(cases, tier, rng):
                         add('viol', 'length() with a declared length touched the generator/cache at step %d: %s' % (k, unparse(tt)),
                             c, [line, '# driver: ' + r[:1500]], obl='corr:declared-queries-do-not-generate')
                         break
-                v_ok, e_ok = v[1] == 'ok', e[1] == 'ok'
-                if lying and mstat != 'err':
-                    continue
-                expect_err = (mstat == 'err') or not e_ok
-                if expect_err:
-                    if v_ok:
+                v_ok, e_ok = v[1] in ('ok', 'build'), e[1] in ('ok', 'build')
+                if mstat == 'err' and v_ok:
+                    bump('viol')
+                    add('viol', 'step %d %s: a generation fails (exception / mismatch) but the virtual array answered' %
+                        (k, unparse(st_in)), c, [line, '# driver: ' + r[:1500], '# model: ' + mr[:800]], obl='corr:virtual==eager')
+                    break
+                if not v_ok and st_in[0] == 'build':
+                    if mstat == 'err' or lying:
+                        break                                # construction needs the payload and the generation failed
+                    bump('viol')
+                    add('viol', 'the layout can be built eagerly but not with the virtual node (%s)' % v[2],
+                        c, [line, '# driver: ' + r[:1500]], obl='corr:virtual==eager')
+                    break
+                if lying or mstat == 'err' or not e_ok:
+                    if not e_ok and v_ok and mstat != 'err' and not lying:
                         bump('viol')
-                        add('viol', 'step %d: %s but the virtual array answered' %
-                            (k, 'generation fails in the model' if mstat == 'err' else 'the eager array raises'),
-                            c, [line, '# driver: ' + r[:1500], '# model: ' + mr[:800]], session_sig, obl='corr:virtual==eager')
+                        add('viol', 'step %d %s: the eager array raises, the virtual array answers' % (k, unparse(st_in)),
+                            c, [line, '# driver: ' + r[:1500]], obl='corr:virtual==eager')
                         break
                     continue
                 if not v_ok:
                     bump('viol')
                     add('viol', 'step %d %s: the eager array answers, the virtual array raises (%s) although every generation succeeded' %
-                        (k, unparse(st_in), v[2]), c, [line, '# driver: ' + r[:1500], '# model: ' + mr[:800]], session_sig,
+                        (k, unparse(st_in), v[2]), c, [line, '# driver: ' + r[:1500], '# model: ' + mr[:800]],
                         obl='corr:virtual==eager')
                     break
                 nok += 1
-                if v[2] == '=' or v[2] == 'lazy':
+                if v[1] == 'build' or v[2] == '=' or v[2] == 'lazy':
                     continue
 
-                def cb(eq, c=c, k=k, st_in=st_in, line=line, r=r, sig=session_sig, v=v, e=e):
+                def cb(eq, c=c, k=k, st_in=st_in, line=line, r=r, v=v, e=e):
                     if eq is True:
                         return
                     if eq is None:
@@ -799,15 +826,14 @@ def run(cases, tier, rng):
                         return
                     bump('viol')
                     add('viol', 'step %d %s: virtual %s != eager %s' % (k, unparse(st_in), unparse(v[2])[:300], unparse(e[2])[:300]),
-                        c, [line, '# driver: ' + r[:1500]], sig if sig else (LONG_SIG if has_small else None),
-                        obl='corr:virtual==eager')
-                jobs.same(e[2], v[2], cb)
+                        c, [line, '# driver: ' + r[:1500]], obl='corr:virtual==eager')
+                jobs.same(e[2], canon(v[2]), cb)
             else:
                 bump('agree' if not use_lenient else 'long-accepted')
-                if use_lenient:
-                    add('viol', 'a generated array longer than the declared length is accepted (no error): length() and the '
-                        'materialised array disagree', c, [line, '# driver: ' + r[:1500]], LONG_SIG, obl='corr:virtual==eager')
-                nontrivial = ngen >= 1 and nok >= 1
+                nontrivial = ngen >= 1 and nok >= 2
+            if use_lenient:
+                add('viol', 'a generated array longer than the declared length is accepted (no error): length() and the '
+                    'materialised array disagree', c, [line, '# driver: ' + r[:1500]], LONG_SIG, obl='corr:virtual==eager')
             if nontrivial:
                 distinct.add(line.split(' ', 1)[1])
                 if len(samples) < 3:
@@ -823,8 +849,11 @@ def run(cases, tier, rng):
             continue
         msteps = parse('(' + mr[3:] + ')')
         ok_session = True
+        repartitioned = False
         for k, (st_in, so) in enumerate(zip(c.meta['steps'], steps_out)):
             p, e, q, es = fld(so, 'p'), fld(so, 'e'), fld(so, 'q'), fld(so, 'es')
+            if st_in[0] == 'repartition':
+                repartitioned = True       # merging may change node classes / union arity: types no longer compared
             mm = fld(msteps[k], 'm')
             pin = fld(msteps[k], 'pinned')
             if c.meta.get('malformed'):
@@ -866,7 +895,20 @@ def run(cases, tier, rng):
                         c, [line, '# driver: ' + r[:1500]], obl='corr:partitioned==eager')
                     ok_session = False
                     break
+                ty = fld(so, 'ty')
+                if ty is not None and ty[1] != 'same' and not repartitioned:
+                    total = int(p[2][1][-1]) if p[2][1] else 0
+                    tp = ''.join(chr(int(x)) for x in ty[2])
+                    te = ''.join(chr(int(x)) for x in ty[3])
+                    bump('viol')
+                    add('viol', 'step %d %s: a partition of the result has type "%s", the eager slice "%s"' % (k, unparse(st_in), tp, te),
+                        c, [line, '# driver: ' + r[:1500]], EMPTY_SIG if total == 0 else None, obl='corr:partitioned==eager')
+                    ok_session = False
+                    break
+                bounds = [0] + [int(x) for x in p[2][1]]
                 for j, (pp, ee) in enumerate(zip(p[2][2:], es[1:])):
+                    if bounds[j + 1] == bounds[j]:
+                        continue              # both empty (lengths were compared by the driver); types compared above
                     def cb(eq, c=c, k=k, j=j, st_in=st_in, line=line, r=r, pp=pp, ee=ee):
                         if eq is True:
                             return
